@@ -209,7 +209,7 @@ def run_case(rep, prepared=True):
     rep['stored_abs'] = sigs.abs_sig(stored_before)
     rep['pipeline_crash'] = pipeline_crashes(stored_before, rep['evolution'])
     before = evorig.snapshot()
-    res = evorig.run_command(execute=True, interactive=False)
+    res = evorig.run_command(execute=True, interactive=False, **({'purge': True} if rep.get('purge') else {}))
     tr = res[-1]
     after = evorig.snapshot()
     writes = tr.write_statements()
@@ -385,6 +385,13 @@ FAMILY = [
      'perturbation': 'family:legacy unique_together, ChangeMeta dropped next to a DeleteField'},
     {'spec0': _legacy(), 'legacy_ut': 'Alpha', 'valid': [_ADD, _UT], 'evolution': [_ADD],
      'perturbation': 'family:legacy unique_together, ChangeMeta dropped next to an AddField'},
+    # the same deficient evolutions with --purge (the residual difference is then judged with the apps compared too)
+    {'spec0': _two(), 'valid': [_ADD, _DELM], 'perturbation': 'family:drop DeleteModel, --purge', 'evolution': [_ADD],
+     'purge': True},
+    {'spec0': _two(), 'valid': [_ADD, _CHG], 'perturbation': 'family:drop ChangeField, --purge', 'evolution': [_ADD],
+     'purge': True},
+    {'spec0': _two(), 'valid': [_ADD], 'perturbation': 'family:extra DeleteField, --purge', 'evolution': [_ADD, _DELF],
+     'purge': True},
     # a mutation the backend cannot apply at all (table comments on SQLite) next to a mutation that leaves a
     # residual difference: the run must be refused, whatever the reason given
     {'spec0': _two(), 'valid': [_ADD], 'perturbation': 'family:unsupported Meta property next to a misnamed AddField',
